@@ -149,3 +149,15 @@ reg("C01", "E2-history-bfs",
     "migration gives every source object a destination twin named by the destination digest.",
     "Temp names (*.tmp) are not objects. Trees <= 3 files; depth <= 4.",
     "DESIGN.md §4 C01")
+
+reg("C02", "E1-product",
+    "exhaustive enumeration of trees x store class x round-trip path x link type x state on the real stage/transfer/checkout and index build/save/compare/apply code; output compared byte for byte",
+    "Every set of <= 2 (thorough 3) files over a nested non-ASCII path universe x contents {empty, x, CRLF text, "
+    "binary}, hand-picked trees (space / '.dir' names, duplicates, all-empty, 5 files) and 6 single files, each "
+    "x {LocalHashFileDB, HashFileDB} x {object-level build/transfer/checkout, index-level build/md5/save/"
+    "compare/apply, a lazily loaded directory entry} x {copy, hardlink, symlink, default} x state on/off: "
+    "~9*10^3 (quick) round trips. Oracle: walked output {relpath: bytes} == generated source; reloaded "
+    "listing == reference listing; identifier == reference; nfiles/size == data; untracked empty source "
+    "directories never appear through the object-level path.",
+    "md5 only (legacy algorithm merges CRLF/LF twins by design). No successful reflink on this kernel.",
+    "DESIGN.md §4 C02")
